@@ -16,6 +16,7 @@ LEVEL_TEXT = (
     'receives an UPDATE that reference-decodes to the values as written and no peer task dies; an independent validity table says '
     'which values the RFCs allow (must be accepted) and which the wire cannot hold (must be refused).'
     ' Definitions are also written in the nested `route <prefix> { ... }` spelling.'
+    ' Half of the flat definitions of 40 % of the plans use the per-family spelling (`announce ipv4 unicast ...`, `announce { ipv4 { unicast ...; } }`); definitions without next hop, `attributes ... nlri` over two address families, flow prefixes the parser recognises as nothing, flow statements out of component order, vpls without next hop.'
 )
 LEVEL_NOTE = 'trusts: the validity table in this file (cells where the RFCs are arguable are marked None and only judged for "no exception, one verdict, values as written if accepted") and the reference codec'
 DESIGN_REF = 'DESIGN.md section 5, C18'
